@@ -111,6 +111,62 @@ pub mod sig_v4 {
     { unimplemented!() }
 }
 
+// ---- http::multipart: the text-field branch of try_parse and CrlfLines -----------------------------------------------------
+pub mod multipart {
+    use vstd::prelude::*;
+    pub enum MultipartError { Underlying(u64), InvalidFormat }
+    pub struct Utf8Error { pub o: u64 }
+    /// the text whose UTF-8 encoding these bytes are, if they are one (std::str::from_utf8: trusted)
+    pub uninterp spec fn utf8_text(b: Seq<u8>) -> Option<Seq<char>>;
+    #[verifier::external_body]
+    pub fn from_utf8(v: &[u8]) -> (r: Result<&str, Utf8Error>)
+        ensures (r matches Ok(s) ==> utf8_text(v@) == Some(s@)), (r is Err ==> utf8_text(v@) is None)
+    { unimplemented!() }
+    pub mod std { pub mod str { pub use super::super::from_utf8; } }
+
+    pub struct CrlfLines<'a> { pub slice: &'a [u8] }
+    /// CrlfLines::split_to as a function of (remaining bytes, boundary line): Some((bytes before the boundary line INCLUDING the
+    /// CRLF that ends the last line before it, remaining bytes after the boundary line)) or None when no complete boundary line
+    /// has arrived yet (its body — memchr_iter line splitting — is not under contract here)
+    pub uninterp spec fn spec_split_to(s: Seq<u8>, line_pat: Seq<u8>) -> Option<(Seq<u8>, Seq<u8>)>;
+    impl<'a> CrlfLines<'a> {
+        #[verifier::external_body]
+        pub fn split_to(&mut self, line_pat: &[u8]) -> (r: Option<&'a [u8]>)
+            ensures
+                (r matches Some(b) ==> spec_split_to(old(self).slice@, line_pat@) == Some((b@, final(self).slice@))),
+                (r is None ==> spec_split_to(old(self).slice@, line_pat@) is None && final(self).slice@ == old(self).slice@),
+        { unimplemented!() }
+    }
+    pub struct ContentDisposition<'a> { pub name: &'a str, pub filename: Option<&'a str> }
+    /// stand-ins for the two values try_parse hands back to its caller when more data is needed
+    pub struct BodyPin { pub o: u64 }
+    pub struct Pat { pub o: u64 }
+    pub open spec fn value_bytes(p: (Seq<u8>, Seq<u8>)) -> Seq<u8> { if p.0.len() >= 2 { p.0.take(p.0.len() - 2) } else { Seq::<u8>::empty() } }
+
+    /// the value of a text field is the bytes between the part's blank line and the next boundary line WITHOUT the one CRLF that
+    /// precedes the boundary line — nothing else is removed ("whatever those bytes are" applies to field values as well).
+    /// Result shape as in try_parse: Ok(Ok(..)) continue, Ok(Err(..)) malformed form, Err(..) need more data.
+    pub fn field_value<'a>(lines: &mut CrlfLines<'a>, pat_without_crlf: &[u8], content_disposition: &ContentDisposition<'a>, body: BodyPin, pat: Pat)
+        -> (ret: Result<Result<(String, String), MultipartError>, (BodyPin, Pat)>)
+        ensures
+            //# C10:multipart.field_value_is_exactly_the_bytes_before_the_boundary_line_minus_one_crlf
+            ret matches Ok(Ok(f)) ==> f.0@ == content_disposition.name@
+                && spec_split_to(old(lines).slice@, pat_without_crlf@) is Some
+                && utf8_text(value_bytes(spec_split_to(old(lines).slice@, pat_without_crlf@)->Some_0)) == Some(f.1@)
+                && final(lines).slice@ == spec_split_to(old(lines).slice@, pat_without_crlf@)->Some_0.1,
+            //# C10:multipart.field_waits_for_more_data_only_without_a_boundary_line
+            ret is Err ==> spec_split_to(old(lines).slice@, pat_without_crlf@) is None,
+            //# C10:multipart.field_is_refused_only_if_it_is_not_text
+            ret matches Ok(Err(e)) ==> spec_split_to(old(lines).slice@, pat_without_crlf@) is Some
+                && utf8_text(value_bytes(spec_split_to(old(lines).slice@, pat_without_crlf@)->Some_0)) is None,
+            //#-
+//@@ canary field_value
+    {
+//@@ extract field_value_stmt file=crates/s3s/src/http/multipart.rs item="fn try_parse" from="let value = match lines.split_to(pat_without_crlf) {" until="fields.push((content_disposition.name.to_owned(), value.to_owned()));"
+        Ok(Ok((content_disposition.name.to_owned(), value.to_owned())))
+    }
+}
+
 /// the clauses of the statement no code evaluates (uninterpreted: nothing can establish them)
 pub uninterp spec fn policy_unexpired(policy_b64: Seq<char>, now: int) -> bool;
 pub uninterp spec fn policy_conditions_hold(policy_b64: Seq<char>, form: Seq<Fld>, file: u64) -> bool;
